@@ -141,7 +141,7 @@ def finish(prop, tier, t0, obs, floors, meta, only=None, cfgs=("default",)):
     cov = {
         "explanation": meta["explanation"],
         "rule": meta.get("rule", ""),
-        "rules_applied": meta.get("rules", []),
+        "rules_applied": sorted(set(meta.get("rules", [])) | set(by_rule)),
         "evaluations": obligations,
         "distinct_nontrivial": distinct_nontrivial,
         "obligations": obligations,
